@@ -6,12 +6,19 @@ pub mod c05;
 pub mod c06;
 pub mod c08;
 pub mod c09;
+pub mod c10;
+pub mod c11;
+pub mod c13;
+pub mod c14;
+pub mod c15;
 pub mod c16;
+pub mod c17;
+pub mod c18;
 
 use crate::runner::Property;
 
 pub fn all() -> Vec<Box<dyn Property>> {
-    vec![Box::new(c01::C01), Box::new(c02::C02), Box::new(c03::C03), Box::new(c04::C04), Box::new(c05::C05), Box::new(c06::C06), Box::new(c08::C08), Box::new(c09::C09), Box::new(c16::C16)]
+    vec![Box::new(c01::C01), Box::new(c02::C02), Box::new(c03::C03), Box::new(c04::C04), Box::new(c05::C05), Box::new(c06::C06), Box::new(c08::C08), Box::new(c09::C09), Box::new(c10::C10), Box::new(c11::C11), Box::new(c14::C12), Box::new(c13::C13), Box::new(c14::C14), Box::new(c15::C15), Box::new(c16::C16), Box::new(c17::C17), Box::new(c18::C18)]
 }
 pub fn by_id(id: &str) -> Option<Box<dyn Property>> {
     all().into_iter().find(|p| p.id().eq_ignore_ascii_case(id))
